@@ -292,8 +292,12 @@ class StubsStringGenerator:
         superclass_info = ""
         superclass_methods_text = ""
         superclass_names = []
-        if superclasses and not class_.is_abstract:
+        if superclasses:
             for superclass in superclasses:
+                # Abstract classes are marked by their missing constructor, "ABC" itself is not shown
+                if superclass == "abc.ABC":
+                    continue
+
                 superclass_name = superclass.split(".")[-1]
                 is_internal_superclass = is_internal(superclass_name)
 
